@@ -6,7 +6,7 @@ CONSTANTS
   Actors = {1, 2}
   WSizes = {1, 2, 3, 5}
   RSizes = {1, 2, 5}
-  MaxH = 5
+  MaxH = 7
   Spurious = FALSE
 VIEW view
 CONSTRAINT Bound
